@@ -225,7 +225,7 @@ def run(case, ctx: Ctx):
     walk(prog)
     obs_count = [0]
     depth_max = [0]
-    flags = dict(exc=False, same_nested=False, interleaved=False)
+    flags = dict(exc=False, same_nested=False, interleaved=False, refused_entry=False)
 
     def visible(field):
         for fr in reversed(stack):
@@ -269,8 +269,10 @@ def run(case, ctx: Ctx):
                     cm = construct(it)
                 raised = False
                 swallowed = False
+                entered = False
                 try:
                     with cm:
+                        entered = True
                         stack.append(fr)
                         depth_max[0] = max(depth_max[0], len(stack))
                         try:
@@ -290,6 +292,15 @@ def run(case, ctx: Ctx):
                     if observe_all:
                         observe(f"after exceptional exit of {path}/{i}:{it['s']}")
                     raise
+                except Warning:
+                    # a warning escalated to an error (the program runs under simplefilter("error")) raised by the block's
+                    # own entry: the block was never entered, so it must not have changed anything
+                    if entered:
+                        raise
+                    flags["exc"] = True
+                    flags["refused_entry"] = True
+                    observe(f"after the entry of {path}/{i}:{it['s']} raised a warning-as-error", fields=sorted(DEFAULTS))
+                    raise Marker()
                 if swallowed:
                     ctx.fail("exception-propagates", "invariant", f"{it['s']}.__exit__ swallowed the exception", cls=it["s"])
                     raise Marker()
@@ -299,16 +310,21 @@ def run(case, ctx: Ctx):
     ctx.cls = "program"
     reset_globals()
     observe("before the program", fields=sorted(DEFAULTS))
-    try:
-        exec_items(prog, "")
-    except Marker:
-        pass
+    import warnings
+
+    with warnings.catch_warnings():
+        # the runner silences warnings; programs run either that way or with warnings escalated to errors
+        warnings.simplefilter("error" if case.get("warnings_as_errors") else "ignore")
+        try:
+            exec_items(prog, "")
+        except Marker:
+            pass
     # at the end every field of every exported setting must read its documented default
     assert not stack
     observe("after the program", fields=sorted(DEFAULTS))
     reset_globals()
     ctx.label(f"depth={min(depth_max[0], 4)}", f"exc={flags['exc']}", f"same_nested={flags['same_nested']}",
-              f"interleaved={flags['interleaved']}")
+              f"interleaved={flags['interleaved']}", f"warnings_as_errors={bool(case.get('warnings_as_errors'))}", f"refused_entry={flags['refused_entry']}")
     ctx.set_nontrivial(flags["exc"] or flags["same_nested"] or flags["interleaved"])
 
 
@@ -371,7 +387,7 @@ def program_strategy():
     )
     top = st.lists(st.one_of(st.just("obs"), node, st.builds(lambda t: {"try": t}, st.lists(st.one_of(node, st.just("raise")), min_size=1, max_size=3))),
                    min_size=1, max_size=5)
-    return st.builds(lambda p, oa: {"prog": p, "observe_all": oa}, top, st.booleans())
+    return st.builds(lambda p, oa, we: {"prog": p, "observe_all": oa, "warnings_as_errors": we}, top, st.booleans(), st.integers(0, 3).map(lambda v: v == 0))
 
 
 # ---- exhaustive tiers ------------------------------------------------------------------------------
@@ -492,7 +508,12 @@ def enumerate_all_classes(tier):
                         placements = [(None, None)] + [(r, t) for r in range(2) for t in [None] + anc[r]]
                         for raise_at, try_at in placements:
                             yield {"prog": _build(forest, syms, raise_at, try_at), "observe_all": True}
+                    if other == name or name in B.__all__ or other in B.__all__:
+                        # the same programs with warnings escalated to errors (entries that warn then raise at the block boundary)
+                        for forest in SHAPES[2]:
+                            yield {"prog": _build(forest, syms, None, None), "observe_all": True, "warnings_as_errors": True}
                     if other == name:
+                        yield {"prog": _build(SHAPES[1][0], syms[:1], None, None), "observe_all": True, "warnings_as_errors": True}
                         yield {"prog": _build(SHAPES[1][0], syms[:1], None, None), "observe_all": True}
                         yield {"prog": _build(SHAPES[1][0], syms[:1], 0, None), "observe_all": True}
                         yield {"prog": _build(SHAPES[1][0], syms[:1], 0, 0), "observe_all": True}
